@@ -36,8 +36,16 @@ class Lock:
         self.f.close()
 
 
-def run(cmd, cwd=None, timeout=3600, input=None, env=None):
-    p = subprocess.run(cmd, cwd=cwd, capture_output=True, text=True, timeout=timeout, input=input, env=env or ENV)
+TIMED_OUT = -999
+
+def run(cmd, cwd=None, timeout=3600, input=None, env=None, soft=False):
+    """soft=True: a timeout is an outcome (rc TIMED_OUT, the output so far), not an exception"""
+    try:
+        p = subprocess.run(cmd, cwd=cwd, capture_output=True, text=True, timeout=timeout, input=input, env=env or ENV)
+    except subprocess.TimeoutExpired as e:
+        if not soft: raise
+        dec = lambda b: b.decode("utf-8", "replace") if isinstance(b, bytes) else (b or "")
+        return TIMED_OUT, dec(e.stdout), dec(e.stderr) + "\nTIMEOUT"
     return p.returncode, p.stdout, p.stderr
 
 
@@ -128,17 +136,46 @@ def split_transcript(text):
     return out
 
 
+BATCH_TIMEOUT, ONE_TIMEOUT, HANG_CAP, IDLE = 3600, 15, 3, 20
+HANGS = [0]   # hangs seen by this check so far, over all suites, profiles and ranges
+
+def run_watch(cmd, idle=IDLE, timeout=BATCH_TIMEOUT):
+    """run with stdout in a file; a process that prints nothing for `idle` seconds (the harness prints a line per step) is
+    killed and reported as TIMED_OUT together with what it had printed"""
+    import tempfile
+    with tempfile.TemporaryFile() as fo, tempfile.TemporaryFile() as fe:
+        p = subprocess.Popen(cmd, stdout=fo, stderr=fe, env=ENV)
+        t0 = last = time.time(); size = 0; rc = None
+        while True:
+            try:
+                rc = p.wait(timeout=0.25); break
+            except subprocess.TimeoutExpired:
+                pass
+            now = time.time(); sz = os.fstat(fo.fileno()).st_size
+            if sz != size: size, last = sz, now
+            if now - last > idle or now - t0 > timeout:
+                p.kill(); p.wait(); rc = TIMED_OUT; break
+        fo.seek(0); fe.seek(0)
+        return rc, fo.read().decode("utf-8", "replace"), fe.read().decode("utf-8", "replace")[-20000:]
+
 def run_harness(profile, scn_path, isolate=False):
     """run the scenario file on the real generated code; returns list of per-scenario line lists.
-    If the process dies (debug builds: std's UB checks abort, they do not unwind) every scenario is re-run in
-    its own process, line by line; the step that killed it is reported as `I <step> abort` / `S <step> abort`."""
+    If the process dies (debug builds: std's UB checks abort, they do not unwind) or does not come back (a call of the
+    generated code that no longer terminates), the scenario at which that happened is re-run in its own process, line
+    by line; the step that killed / hung it is reported as `I <step> abort ... cause=ubcheck|double-panic|timeout`.
+    After HANG_CAP hangs in one check the remaining scenarios are reported as aborted without being run (each
+    hang costs IDLE + ONE_TIMEOUT seconds; the check has to stay a check one can run on every change)."""
     n = sum(1 for l in open(scn_path) if l.startswith("shape "))
     def run_range(lo, hi):
         result = []
         start = lo
         err = ""
         while start < hi:
-            rc, out, err = run([harness_bin(profile), "run", scn_path, str(start), str(hi)], timeout=3600)
+            if HANGS[0] >= HANG_CAP:
+                result += [[f"I end abort double_drop=false leak=false cause=skipped-after-{HANG_CAP}-hangs", "S end abort double_drop=false leak=false"]
+                           for _ in range(start, hi)]
+                break
+            rc, out, err = run_watch([harness_bin(profile), "run", scn_path, str(start), str(hi)])
             got = split_transcript(out)
             if rc == 0:
                 result += got
@@ -148,7 +185,8 @@ def run_harness(profile, scn_path, isolate=False):
             result += complete
             k = start + len(complete)
             if k >= hi: break
-            rc1, out1, err1 = run([harness_bin(profile), "run1", scn_path, str(k)], timeout=600)
+            rc1, out1, err1 = run([harness_bin(profile), "run1", scn_path, str(k)], timeout=ONE_TIMEOUT, soft=True)
+            if rc1 == TIMED_OUT: HANGS[0] += 1
             lines = [l for l in out1.splitlines() if not l.startswith("# scenario")]
             steps = [l for l in lines if l.startswith("# step")]
             step = steps[-1].split()[2] if steps else "0"
@@ -156,7 +194,7 @@ def run_harness(profile, scn_path, isolate=False):
             if rc1 != 0:
                 # two very different deaths: std's check of an unsafe precondition (an unchecked out-of-bounds access was
                 # executed) vs a second panic while unwinding (e.g. the destructor of a desynchronised nested container)
-                cause = "ubcheck" if "UBCHECK" in err1 else "double-panic"
+                cause = "timeout" if rc1 == TIMED_OUT else "ubcheck" if "UBCHECK" in err1 else "double-panic"
                 lines = [l for l in lines if l.split()[1] != step]
                 if step != "end":
                     lines += [f"I {step} abort ret=- rev=[] ev=[] regs=~ cause={cause} signal={-rc1 if rc1 < 0 else rc1}", f"S {step} noabort ret=- rev=[] ev=[] regs=~"]
